@@ -313,10 +313,14 @@ func genLinCase(rng *hlib.Rng, w *world, id int, rep *hlib.Report) *Case {
 	u := newUniverse()
 	ngo := 2 + rng.Intn(2)
 	total := 0
+	hasLocal := false
 	for g := 0; g < ngo; g++ {
 		nops := 1 + rng.Intn(3)
-		for i := 0; i < nops && total < 6; i++ {
-			op := OpJS{K: "add", G: g, Local: rng.Chance(10)}
+		// a history with a local addition is checked against the larger candidate set of
+		// coqLin (placement of the promotion runs): kept to 4 operations
+		for i := 0; i < nops && total < 6 && !(hasLocal && total >= 4); i++ {
+			op := OpJS{K: "add", G: g, Local: rng.Chance(10) && total < 4}
+			hasLocal = hasLocal || op.Local
 			for k := 1 + rng.Pick(60, 40); k > 0; k-- {
 				s := TxSpec{From: rng.Intn(n), Nonce: uint64(rng.Pick(45, 35, 20)), Price: pick(rng, []uint64{10, 11, 12, 13, 20, 25}), Gas: 21000, Value: uint64(g)}
 				op.Txs = append(op.Txs, u.id(s))
@@ -369,6 +373,13 @@ func (c *Case) coqLin() string {
 	if c.Final != nil {
 		final = "Some " + c.Final.Coq()
 	}
+	hasLocal := false
+	for _, op := range c.Ops {
+		hasLocal = hasLocal || op.Local
+	}
+	if hasLocal && len(c.Ops) <= 5 {
+		return c.coqHeader() + "[" + joinS(c.deferredAlts(final), ";\n  ") + "])"
+	}
 	alts := make([]string, len(c.Alts))
 	for k, alt := range c.Alts {
 		steps := make([]string, len(alt))
@@ -392,6 +403,34 @@ func joinS(s []string, sep string) string {
 			out += sep
 		}
 		out += x
+	}
+	return out
+}
+
+// deferredAlts: candidate histories of a concurrent-additions case in which the placement
+// of the promotion runs matters (AddRemotes/AddLocals return before the run they request;
+// TxPool.add marks an account local only on the queue path, not when the transaction
+// replaces a pending one, so whether an earlier transaction had already been promoted
+// changes the outcome). For every interleaving of the calls: after each call but the last,
+// a run promoting any subset of the accounts whose request it had taken (CRunAny: every
+// subset is tried inside Coq), and a final run over all accounts.
+func (c *Case) deferredAlts(final string) []string {
+	all := make([]int, c.NAccts)
+	for a := range all {
+		all[a] = a
+	}
+	var out []string
+	for _, alt := range c.Alts {
+		var steps []string
+		for jj, i := range alt {
+			op := &c.Ops[i]
+			steps = append(steps, fmt.Sprintf("(CAddNoRun %v %s, None, None)", op.Local, coqInts(op.Txs)))
+			if jj < len(alt)-1 {
+				steps = append(steps, "(CRunAny, None, None)")
+			}
+		}
+		steps = append(steps, fmt.Sprintf("(CRunOn %s, None, %s)", coqInts(all), final))
+		out = append(out, "["+joinS(steps, "; ")+"]")
 	}
 	return out
 }
